@@ -1,7 +1,7 @@
 (* C15: HMF corollaries -- badness never increases in an a-step; the multiplicative (non-negative) updates keep
    non-negative factors non-negative; the normalisation does not change the model and gives unit rms. *)
 From Coq Require Import QArith Qabs Lqa List Bool Lia ZArith.
-From PV Require Import Lib.WLS C13.LinAlg C13.LinAlgProofs C15.Model C15.Chi2Proofs C15.HmfProofs.
+From PV Require Import Lib.WLS C13.LinAlg C13.LinAlgProofs Generated.Chi2 C15.Model C15.Chi2Proofs C15.HmfProofs.
 Import ListNotations.
 Open Scope Q_scope.
 
@@ -136,7 +136,8 @@ Proof.
   - inversion Hs; inversion Hw; inversion Hag; subst. apply IH; assumption.
 Qed.
 
-(* nn_updates_nonneg: with non-negative data, weights and factors both multiplicative updates are non-negative
+(* nn_updates_nonneg: with non-negative data, weights and factors both multiplicative updates (numerator, denominator,
+   ratio, smoothing terms as the source writes them) are non-negative
    (in Q a zero denominator gives 0; the harness keeps denominators positive) *)
 Theorem astepnn_nonneg s w a g : mnn s -> mnn w -> mnn a -> mnn g -> mnn (astepnn s w a g).
 Proof.
@@ -146,36 +147,58 @@ Proof.
     [| apply Forall_combine3; assumption | exact Ha].
   intros [[si wi] agi] ai [H1 [H2 H3]] Hai. simpl in *.
   apply (Forall_map2 vnn (fun x => 0 <= x) (fun x => 0 <= x)); [| exact Hg | exact Hai].
-  intros gk aik Hgk Haik. apply Qmult_le_0_compat; [exact Haik|].
-  apply Qdiv_nn; apply dot_nn; try assumption; apply map2_mult_nn; assumption.
+  intros gk aik Hgk Haik. unfold g_nn_upd. apply Qmult_le_0_compat; [exact Haik|].
+  apply Qdiv_nn; apply dot_nn; try assumption.
+  - apply (map2_mult_nn si wi); assumption.
+  - apply (map2_mult_nn agi wi); assumption.
 Qed.
 
-Lemma eps_active_nn eps : match eps_active eps with Some e => 0 <= e | None => True end.
+Lemma eps_active_gen_pos eps e : eps_active_gen eps = Some e -> 0 < e.
 Proof.
-  destruct (eps_active eps) as [e|] eqn:E; [|exact I]. apply Qlt_le_weak. apply (eps_active_pos eps e E).
+  unfold eps_active_gen. destruct eps as [e0|]; [|discriminate]. unfold g_eps_pos, gQlt_bool.
+  destruct (Qle_bool e0 (0 # 1)) eqn:E; simpl; [discriminate|]. intros H; inversion H; subst.
+  destruct (Qlt_le_dec 0 e); [assumption|]. apply Qle_bool_iff in q. congruence.
 Qed.
+
+Lemma gat_nn g k n : mnn g -> 0 <= gat g k n.
+Proof.
+  intros H. unfold gat. apply nth_nn.
+  destruct (nth_in_or_default k g []) as [Hin|Hd]; [|rewrite Hd; constructor].
+  unfold mnn in H. rewrite Forall_forall in H. apply H. exact Hin.
+Qed.
+
+Lemma gen_e_nn e g M j k : 0 <= e -> mnn g -> 0 <= gen_e e g M j k.
+Proof.
+  intros He Hg. unfold gen_e, g_e_first, g_e_last, g_e_mid.
+  destruct (Nat.eqb j 0); [apply Qmult_le_0_compat; [exact He | apply gat_nn; exact Hg]|].
+  destruct (Nat.eqb j (M - 1)); [apply Qmult_le_0_compat; [exact He | apply gat_nn; exact Hg]|].
+  apply Qmult_le_0_compat; [exact He|].
+  pose proof (gat_nn g k (g_e_mid_src_a j) Hg). pose proof (gat_nn g k (g_e_mid_src_b j) Hg). lra.
+Qed.
+
+Lemma gen_dmult_nn M j : 0 <= gen_dmult M j.
+Proof. unfold gen_dmult, g_d_factor. destruct (g_d_interior j M); unfold Qle; simpl; lia. Qed.
 
 Theorem gstepnn_nonneg s w a g eps : mnn s -> mnn w -> mnn a -> mnn g -> mnn (gstepnn s w a g eps).
 Proof.
   intros Hs Hw Ha Hg. unfold gstepnn.
   pose proof (hadamard_nn s w Hs Hw) as Hsw.
   pose proof (hadamard_nn _ w (mat_mul_nn a g Ha Hg) Hw) as Hagw.
-  apply (Forall_map2 vnn vnn vnn); [| apply transpose_nn; exact Ha | exact Hg].
-  intros atk gk Hat Hgk. apply Forall_forall. intros v Hv. apply in_map_iff in Hv. destruct Hv as [j [E _]]. subst.
-  pose proof (eps_active_nn eps) as He.
-  apply Qmult_le_0_compat; [apply nth_nn; exact Hgk|].
+  change (map2 (map2 g_nn_num) s w) with (hadamard s w).
+  change (map2 (map2 g_nn_den) (mat_mul a g) w) with (hadamard (mat_mul a g) w).
+  apply (Forall_map2 vnn (fun kg : nat * vec => vnn (snd kg)) vnn);
+    [| apply transpose_nn; exact Ha | apply Forall_combine_snd; exact Hg].
+  intros atk [k gk] Hat Hgk. simpl in Hgk. apply Forall_forall. intros v Hv. apply in_map_iff in Hv. destruct Hv as [j [E _]]. subst.
+  unfold g_nn_upd. apply Qmult_le_0_compat; [apply nth_nn; exact Hgk|].
   apply Qdiv_nn.
   - assert (0 <= dot atk (col j (hadamard s w))) by (apply dot_nn; [exact Hat | apply col_nn; exact Hsw]).
-    destruct (eps_active eps) as [e|]; [|lra].
-    assert (0 <= e * vsum (map (fun n => nth n gk 0) (nbrs (ncols g) j))).
-    { apply Qmult_le_0_compat; [exact He|]. apply vsum_nn. apply Forall_forall. intros v Hv.
-      apply in_map_iff in Hv. destruct Hv as [n [E _]]. subst. apply nth_nn. exact Hgk. }
-    lra.
+    destruct (eps_active_gen eps) as [e|] eqn:Ee; [|lra].
+    pose proof (gen_e_nn e g (ncols g) j k (Qlt_le_weak _ _ (eps_active_gen_pos eps e Ee)) Hg). lra.
   - assert (0 <= dot atk (col j (hadamard (mat_mul a g) w))) by (apply dot_nn; [exact Hat | apply col_nn; exact Hagw]).
-    destruct (eps_active eps) as [e|]; [|lra].
-    assert (0 <= e * inject_Z (Z.of_nat (length (nbrs (ncols g) j))) * nth j gk 0).
-    { apply Qmult_le_0_compat; [apply Qmult_le_0_compat; [exact He|]|apply nth_nn; exact Hgk].
-      unfold Qle, inject_Z. simpl. lia. }
+    destruct (eps_active_gen eps) as [e|] eqn:Ee; [|lra].
+    assert (0 <= g_nn_d e (nth j gk 0) * gen_dmult (ncols g) j).
+    { apply Qmult_le_0_compat; [|apply gen_dmult_nn]. unfold g_nn_d.
+      apply Qmult_le_0_compat; [apply Qlt_le_weak, (eps_active_gen_pos eps e Ee) | apply nth_nn; exact Hgk]. }
     lra.
 Qed.
 
